@@ -1,2 +1,3 @@
+import PydapModel.Generated.Tables
 import PydapModel.Sexp
 import PydapModel.Slice
